@@ -464,7 +464,7 @@ def chRun (d : ChDrv) (sched : List String) : List String := Id.run do
 def chStep (d : ChDrv) (line : String) : ChDrv × String :=
   match line.trimAscii.toString.splitOn " " with
   | "schedule" :: rest => (d, "\n".intercalate (chRun d rest))
-  | ["seed", _] | ["maxsteps", _] | ["spurious", _] => (d, "")
+  | ["seed", _] | ["maxsteps", _] | ["spurious", _] | ["setup", "default"] => (d, "")
   | ["---"] => ({}, "---")
   | [t, "nested", _, "send", n] => match (t.drop 1).toString.toNat?, n.toNat? with
     | some t, some n => ({ chAdd d t (.send n) with nested := t :: d.nested }, "")
